@@ -13,7 +13,17 @@
      r        severity of the record (built-in 0..11, or a registered custom level)
      L        level of the receiving logger
      ni, ia   the global flags LnoInterrupt / Linterruptalways
-     testing  process mode: TRUE = started as a go-test binary, FALSE = production
+     start    how the process was STARTED - the two signs the library looks at in os.Args when
+              package slog is initialised (hedzr/is InTestingT): the executable is named *.test
+              (NameSign) and some argument begins with "-test." (ArgSign).  "gotest" has both,
+              "prod" none, "nameOnly" an executable named *.test WITHOUT any -test.* argument (a
+              program deployed as svc.test, a test binary started by hand), "argOnly" an ordinary
+              executable name WITH a -test.* argument (-test.endpoint=...)
+     testing  process mode: TRUE = under go test, FALSE = production.  The statement says "under
+              go test": the go command runs a binary named *.test and always hands it -test.*
+              arguments, so testing = BOTH signs (GoTest); either sign alone is a production
+              process.  That is also how the unchanged library decides (InTestingT: name sign
+              AND argument sign; what os.Args becomes later does not matter)
      fmt      output format of the logger ("logfmt", "json", "color")
      base     all the OTHER global flags ("std" factory set, "empty", "all")
      inp      shape of message and arguments ("plain", "kv", "attr") - an input class
@@ -25,10 +35,27 @@
               a list with io.Discard next to a recording writer ("mixed")
      size     0 = the short message of the input class, otherwise the exact length of the
               message in bytes (65535, 65536, 65537, ~100 KiB, ~300 KiB)
+     from     WHERE the call is issued from (Sites): "top" = by the program, no other record in
+              the making; otherwise NESTED in the production of another ("outer") record on the
+              same goroutine: "writeSame" / "writeOther" = from inside the Write of a destination
+              that is handed the outer record, the outer record being one of the SAME logger
+              (severity Always, so it is produced at every level but Off - at Off the site cannot
+              be reached and the cell does not exist) / of ANOTHER logger; "string",
+              "marshalText", "logValue" = from the String / MarshalText (MarshalJSON in JSON
+              format) / LogValue method of a value of the outer record while it is being
+              formatted (another logger; LogValue through the log/slog handler, the only place
+              where the library resolves LogValuers).  The cell's coordinates describe the
+              NESTED call; its outcome is observed at the nested call itself (markers around
+              it, a recover around it) and from outside the process (exit status, what was
+              written).  Of the outer call only this is the property's business: it is a call of
+              another severity (Always / Info), so it never panics or exits (OuterReturnsP)
 
-   Termination does not depend on dst or size: the statement's outcome is a function of
-   severity, logger level, the two flags and the process mode only (TerminatesK / OutcomeK take
-   nothing else), and DestinationsDoNotMatter checks the same of the mechanism.  The clause
+   Termination does not depend on dst, size or from, and of start only through testing: the
+   statement's outcome is a function of severity, logger level, the two flags and the process
+   mode only (TerminatesK / OutcomeK take nothing else), and DestinationsDoNotMatter checks the
+   same of the mechanism.  An observation can also be "hang": the call neither returned nor
+   panicked nor ended the process within the time limit (the process idles or spins) - never
+   what the statement says (Ends).  The clause
    "writes its complete record first" can be OBSERVED only where a recording writer is among
    the destinations of the severity (Recording); for observations it is evaluated there and
    skipped elsewhere (an io.Discard shows nothing), for the mechanism it is checked everywhere
@@ -49,8 +76,9 @@
          cell     the cell being executed (chosen in Init, never changes)
          pc       "call" -> "print" -> "tail" -> "done"
          written  number of complete records handed to the destination so far
-         fin      outcome so far: [out |-> "none"|"ret"|"panic"|"exit", status, pv]
-                  (status = exit status, pv = "msg" when the panic value is the message)
+         fin      outcome so far: [out |-> "none"|"ret"|"panic"|"exit"|"hang", status, pv]
+                  (status = exit status, pv = "msg" when the panic value is the message;
+                  "hang" = stuck for ever, produced by a wrong mechanism only)
 
        Actions: DoGate, DoPrint, DoTail.  A terminated call has no successor (the process is
        gone / the stack is unwound).
@@ -61,25 +89,31 @@
        OnlyWhenStated         termination only for Panic/Fatal, admitted, ~ni, (~testing \/ ia)
        FinalMatchesStatement  every finished call ended exactly as Expected(cell) says
        NotAdmittedSilent      a call that is not admitted writes nothing
-       DestinationsDoNotMatter  the way the call ends is the same for every destination class
-                              and every message size (twin cells, same severity/level/flags/mode)
+       Ends                   no call gets stuck
+       DestinationsDoNotMatter  the way the call ends is the same for every destination class,
+                              every message size, every call site and every way of starting the
+                              process with the same mode (twin cells, same severity/level/flags/mode)
        TermOrder (action)     the terminating step is a different, later step than the write
        NothingAfterEnd (action) no step is taken from a finished/terminated call
    `Mut` selects deliberately wrong variants of the mechanism; the check runs them to show that
    each invariant can fail (non-vacuity); two of them make the outcome depend on the destination
-   class ("discardGate") / the message size ("truncate").  Mut = "none" is the documented
-   mechanism.                                                                                 *)
+   class ("discardGate") / the message size ("truncate"), one on the call site ("waitInFlight":
+   a nested Fatal waits for the outer record to finish - for ever) and one on a single start-up
+   sign ("eitherSign").  Mut = "none" is the documented mechanism.                              *)
 EXTENDS Levels, Json, SequencesExt
 
 CONSTANTS
     LoggerLevels,    \* logger levels explored (subset of 0..MaxLevel)
-    Dims,            \* <<fmt, base, inp, dst, size>> tuples explored for Panic/Fatal severities: the product
+    Dims,            \* <<fmt, base, inp, dst, size, from>> tuples explored for Panic/Fatal severities: the product
                      \* of {"logfmt","json","color"} x {"std","empty","all"} x {"plain","kv","attr",..} with
-                     \* the default <<"rec", 0>>, or a pairwise-covering subset of it, plus tuples that
-                     \* vary the destination class and the message size
+                     \* the default <<"rec", 0, "top">>, or a pairwise-covering subset of it, plus tuples that
+                     \* vary the destination class, the message size and the call site
     NegDims,         \* tuples explored for the other severities (negative cases)
-    WideLevels,      \* logger levels crossed with the tuples whose dst/size is not the default
-                     \* (<<"rec", 0>>); subset of LoggerLevels
+    WideLevels,      \* logger levels crossed with the tuples whose dst/size/from is not the default
+                     \* (<<"rec", 0, "top">>); subset of LoggerLevels
+    HalfDims,        \* the tuples of Dims that are crossed with all four ways of starting the process (Starts);
+                     \* the others with the two unambiguous ones ("prod", "gotest")
+    NegHalfDims,     \* the same for the tuples of NegDims (the other severities)
     Customs,         \* registered custom levels: [level -> level it is treated as]
     ExportFile,      \* "" or the file the table is exported to
     Mut              \* "none" or the name of a deliberately wrong mechanism (witness runs)
@@ -137,7 +171,30 @@ DstCfg ==
 DstClasses == DOMAIN DstCfg
 MsgSizes == {0, 65535, 65536, 65537, 102400, 307200}
 DefaultDst == "rec"
-Wide(q) == q[4] # DefaultDst \/ q[5] # 0          \* the tuple varies destination or size
+
+(* Call sites: where the cell's call is issued from (see `from` above).                        *)
+Sites == {"top", "writeSame", "writeOther", "string", "marshalText", "logValue"}
+WriteSites == {"writeSame", "writeOther"}
+ValueSites == {"string", "marshalText", "logValue"}
+Nested(c) == c.from # "top"
+\* the site is reached only if the outer record is produced: on the same logger it has severity
+\* Always (admitted at every level but Off); values are formatted only while the flag set has
+\* Lattrs (not in the "empty" flag set); the harness wraps the recording writer of the default
+\* destination class
+SiteReachable(site, l) == site = "writeSame" => l # Off
+SiteDimsOK(q) == q[6] # "top" => (q[4] = DefaultDst /\ q[2] # "empty")
+
+(* Ways of starting the process: the two signs of "this is a go test binary" in os.Args.      *)
+Starts == {"prod", "gotest", "nameOnly", "argOnly"}
+FullStarts == {"prod", "gotest"}                   \* no sign at all / both signs
+NameSign(st) == st \in {"gotest", "nameOnly"}       \* the executable is named *.test
+ArgSign(st) == st \in {"gotest", "argOnly"}         \* some argument begins with "-test."
+\* "under go test" (statement): both signs.  The go command builds pkg.test and runs it with
+\* -test.* arguments (-test.paniconexit0, -test.timeout=.. at least); a production program that
+\* happens to be called svc.test, or to take an option -test.endpoint, is not under go test.
+GoTest(st) == NameSign(st) /\ ArgSign(st)
+
+Wide(q) == q[4] # DefaultDst \/ q[5] # 0 \/ q[6] # "top"   \* the tuple varies destination, size or call site
 
 \* the writers a record of severity r is handed to: a non-empty per-level list wins, otherwise
 \* the error device for the severities of property C03's error class, otherwise the normal device
@@ -149,34 +206,42 @@ Recording(c) == Has(Dest(c), "rec")           \* the record can be observed
 AllDiscarded(c) == ~Has(Dest(c), "rec")       \* io.Discard only, or no writer at all
 
 \* Panic/Fatal severities are crossed with the <<format, base flags, input class, destination class,
-\* message size>> tuples of Dims; the other severities (negative cases) with those of NegDims; tuples that
-\* vary destination or size with the logger levels of WideLevels, the default ones with LoggerLevels.
+\* message size, call site>> tuples of Dims; the other severities (negative cases) with those of NegDims; tuples that
+\* vary destination, size or site with the logger levels of WideLevels, the default ones with LoggerLevels;
+\* the tuples of HalfDims (other severities: NegHalfDims) with all four ways of starting the process, the others
+\* with "prod" and "gotest".
 \* The cells are numbered (CellSeq) rather than collected in a set of records: TLC sorts a set of
 \* n elements with O(n^2) moves unless they arrive in order, which is minutes for a million cells.
-Mk(t, l, n, a, tm, q) ==
-    [ep |-> t[1], recv |-> t[2], r |-> t[3], L |-> l, ni |-> n, ia |-> a, testing |-> tm,
-     fmt |-> q[1], base |-> q[2], inp |-> q[3], dst |-> q[4], size |-> q[5]]
+Mk(t, l, n, a, st, q) ==
+    [ep |-> t[1], recv |-> t[2], r |-> t[3], L |-> l, ni |-> n, ia |-> a, testing |-> GoTest(st), start |-> st,
+     fmt |-> q[1], base |-> q[2], inp |-> q[3], dst |-> q[4], size |-> q[5], from |-> q[6]]
 CarrierDims == ({t \in Carriers : Terminating(t[3])} \X Dims) \cup ({t \in Carriers : ~Terminating(t[3])} \X NegDims)
 LevelsOf(q) == IF Wide(q) THEN WideLevels ELSE LoggerLevels
-CarrierDimLevels == {x \in CarrierDims \X LoggerLevels : x[2] \in LevelsOf(x[1][2])}
-CDL == SetToSeq(CarrierDimLevels)
-NCells == 8 * Len(CDL)
+StartsOf(q, r) == IF q \in (IF Terminating(r) THEN HalfDims ELSE NegHalfDims) THEN Starts ELSE FullStarts
+CarrierDimLevels == {x \in CarrierDims \X LoggerLevels : x[2] \in LevelsOf(x[1][2]) /\ SiteReachable(x[1][2][6], x[2])}
+CarrierDimLevelStarts == {y \in CarrierDimLevels \X Starts : y[2] \in StartsOf(y[1][1][2], y[1][1][1][3])}
+CDL == SetToSeq(CarrierDimLevelStarts)
+NCells == 4 * Len(CDL)
 CellIds == 1..NCells
-CellAt(k) == LET x == CDL[((k - 1) \div 8) + 1]
-                 b == (k - 1) % 8
-             IN Mk(x[1][1], x[2], (b \div 4) % 2 = 1, (b \div 2) % 2 = 1, b % 2 = 1, x[1][2])
+CellAt(k) == LET y == CDL[((k - 1) \div 4) + 1]
+                 x == y[1]
+                 b == (k - 1) % 4
+             IN Mk(x[1][1], x[2], (b \div 2) % 2 = 1, b % 2 = 1, y[2], x[1][2])
 CellSeq == [k \in CellIds |-> CellAt(k)]         \* the table: every cell once
 
 \* "c is a cell of the table" without searching it
+DimOf(c) == <<c.fmt, c.base, c.inp, c.dst, c.size, c.from>>
 IsCell(c) ==
-    /\ DOMAIN c = {"ep", "recv", "r", "L", "ni", "ia", "testing", "fmt", "base", "inp", "dst", "size"}
+    /\ DOMAIN c = {"ep", "recv", "r", "L", "ni", "ia", "testing", "start", "fmt", "base", "inp", "dst", "size", "from"}
     /\ Carries(c.ep, c.recv, c.r)
-    /\ c.ni \in BOOLEAN /\ c.ia \in BOOLEAN /\ c.testing \in BOOLEAN
-    /\ <<c.fmt, c.base, c.inp, c.dst, c.size>> \in (IF Terminating(c.r) THEN Dims ELSE NegDims)
-    /\ c.L \in LevelsOf(<<c.fmt, c.base, c.inp, c.dst, c.size>>)
+    /\ c.ni \in BOOLEAN /\ c.ia \in BOOLEAN
+    /\ DimOf(c) \in (IF Terminating(c.r) THEN Dims ELSE NegDims)
+    /\ c.L \in LevelsOf(DimOf(c)) /\ SiteReachable(c.from, c.L)
+    /\ c.start \in StartsOf(DimOf(c), c.r) /\ c.testing = GoTest(c.start)
 
 ASSUME WideLevels \subseteq LoggerLevels
-ASSUME \A q \in Dims \cup NegDims : q[4] \in DstClasses /\ q[5] \in MsgSizes
+ASSUME \A q \in Dims \cup NegDims : q[4] \in DstClasses /\ q[5] \in MsgSizes /\ q[6] \in Sites /\ SiteDimsOK(q)
+ASSUME HalfDims \subseteq Dims /\ NegHalfDims \subseteq NegDims
 ASSUME \A k \in CellIds : IsCell(CellSeq[k])
 
 -----------------------------------------------------------------------------
@@ -189,7 +254,8 @@ Admitted(c) == Admit(c.L, c.r, FALSE, Treat)
 \*  admitted, when the no-interrupt flag is set, or under go test unless the interrupt-always
 \*  flag is set, and no other severity ever panics or exits."
 \*  - as a function of severity, logger level, the two flags and the process mode, and of nothing
-\*  else: where the record goes and how long the message is do not occur
+\*  else: where the record goes, how long the message is and where the call is issued from do not
+\*  occur; "under go test" (testing) is GoTest of the way the process was started: both signs
 TerminatesK(r, L, ni, ia, testing) == /\ Terminating(r)
                                       /\ Admit(L, r, FALSE, Treat)
                                       /\ ~ni
@@ -208,6 +274,7 @@ NoFin == [out |-> "none", status |-> 0, pv |-> ""]
 Ret == [out |-> "ret", status |-> 0, pv |-> ""]
 PanicWith(v) == [out |-> "panic", status |-> 0, pv |-> v]
 ExitWith(s) == [out |-> "exit", status |-> s, pv |-> ""]
+Hang == [out |-> "hang", status |-> 0, pv |-> ""]     \* never an expected outcome
 
 \* panic value = the message; exit status 253
 ExpectedFin(c) == CASE Outcome(c) = "panic" -> PanicWith("msg")
@@ -226,16 +293,25 @@ Expected(c) == [out |-> Outcome(c), status |-> ExpectedFin(c).status, pv |-> Exp
 Seen(c, everywhere) == everywhere \/ Recording(c)
 WriteThenTerminateP(c, f, w, everywhere) == (f.out \in {"panic", "exit"} /\ Seen(c, everywhere)) => w = 1
 OnlyWhenStatedP(c, f, w) == f.out \in {"panic", "exit"} => Terminates(c)
+\* "then panics / then exits the process", "neither terminates" (= the call returns): the call ENDS
+EndsP(c, f, w) == f.out # "hang"
 FinalMatchesStatementP(c, f, w, everywhere) ==
     /\ f.out = Outcome(c)
     /\ f.out = "exit" => f.status = ExitStatus
     /\ f.out = "panic" => f.pv = "msg"
     /\ (MustWrite(c) /\ Seen(c, everywhere)) => w = 1
 
+\* "no other severity ever panics or exits", applied to the OUTER call of a nested cell: it is a call of
+\* severity Always (same logger) or Info (another logger); oo is how it ended ("none": not observed - the cell
+\* is not nested, or the nested call ended the process)
+OuterSeverity(site) == IF site = "writeSame" THEN Always ELSE Info
+OuterReturnsP(c, oo) == (Nested(c) /\ ~Terminating(OuterSeverity(c.from))) => oo \in {"none", "ret"}
+
 \* an observation of the library (everywhere = FALSE)
 Failed(c, f, w) ==
     (IF WriteThenTerminateP(c, f, w, FALSE) THEN {} ELSE {"WriteThenTerminate"}) \cup
     (IF OnlyWhenStatedP(c, f, w) THEN {} ELSE {"OnlyWhenStated"}) \cup
+    (IF EndsP(c, f, w) THEN {} ELSE {"Ends"}) \cup
     (IF FinalMatchesStatementP(c, f, w, FALSE) THEN {} ELSE {"FinalMatchesStatement"})
 
 -----------------------------------------------------------------------------
@@ -257,11 +333,20 @@ PrintMech(c) == IF Clamped(c) THEN 0 ELSE 1
 \*       if IsAllBitsSet(LnoInterrupt) { return }
 \*       if lvl == PanicLevel { panic(msg) }
 \*       if lvl == FatalLevel { os.Exit(-3) } }
+\* inTesting: a package variable, is.InTesting() evaluated once when package slog is initialised, which is
+\*   InTestingT(os.Args): (HasSuffix(args[0], ".test") || Contains(args[0], "/T/___Test")) && some argument
+\*   HasPrefix "-test."      (the second name form is what an IDE on macOS calls its test binaries)
+\* ("eitherSign": a wrong detection that is content with one of the two signs)
+\* ("waitInFlight": a wrong Fatal arm that waits until no record is in the making any more before it
+\*  exits - issued from inside the production of another record on the same goroutine it waits for ever)
 NoInterrupt(c) == IF Mut = "anyBits" THEN c.ni \/ c.ia ELSE c.ni
+InTestingMech(c) == IF Mut = "eitherSign" THEN NameSign(c.start) \/ ArgSign(c.start)
+                    ELSE NameSign(c.start) /\ ArgSign(c.start)
 TailMech(c) ==
-    IF ~c.testing \/ c.ia
+    IF ~InTestingMech(c) \/ c.ia
     THEN IF NoInterrupt(c) THEN Ret
          ELSE IF c.r = Panic THEN PanicWith(IF (Mut = "panicValue" /\ c.inp # "plain") \/ Clamped(c) THEN "other" ELSE "msg")
+         ELSE IF c.r = Fatal /\ Mut = "waitInFlight" /\ Nested(c) THEN Hang
          ELSE IF c.r = Fatal THEN ExitWith(IF Mut = "status" THEN 3 ELSE ExitStatus)
          ELSE IF Mut = "errTerm" /\ c.r = Error /\ c.ia THEN ExitWith(ExitStatus)
          ELSE Ret
@@ -309,26 +394,35 @@ Spec == Init /\ [][Next]_vars
 TypeOK == /\ IsCell(cell)
           /\ pc \in {"call", "print", "tail", "done"}
           /\ written \in 0..1
-          /\ fin.out \in {"none", "ret", "panic", "exit"}
+          /\ fin.out \in {"none", "ret", "panic", "exit", "hang"}
           /\ (pc = "done") = (fin.out # "none")
 
 WriteThenTerminate == WriteThenTerminateP(cell, fin, written, TRUE)
 OnlyWhenStated == OnlyWhenStatedP(cell, fin, written)
 FinalMatchesStatement == pc = "done" => FinalMatchesStatementP(cell, fin, written, TRUE)
 NotAdmittedSilent == (pc = "done" /\ ~Admitted(cell)) => written = 0
+Ends == EndsP(cell, fin, written)
 
-\* Termination does not depend on where the record goes or on how long the message is: the call
-\* of every twin cell (same entry point, severity, level, flags, mode; any destination class, any
-\* message size) ends the way this one did.
-\* (twins: every destination class with the short message and every size with recording writers;
-\*  for Panic/Fatal severities also every <<destination class, size>> pair that occurs in the table)
-Twin(c, dz) == [c EXCEPT !.dst = dz[1], !.size = dz[2]]
-TwinAxes == {<<d, 0>> : d \in DstClasses} \cup {<<DefaultDst, z>> : z \in MsgSizes}
-TwinPairs == TwinAxes \cup {<<q[4], q[5]>> : q \in Dims}
+\* Termination does not depend on where the record goes, on how long the message is, on where the
+\* call is issued from, or on HOW the process came to be in its mode: the call of every twin cell
+\* (same entry point, severity, level, flags, mode; any destination class, any message size, any call
+\* site, any way of starting the process that gives the same mode) ends the way this one did.
+\* (twins: every destination class with the short message, every size with recording writers, every
+\*  site with both; for Panic/Fatal severities also every <<destination class, size, site>> triple that
+\*  occurs in the table; each with every way of starting the process of the same mode)
+Twin(c, dz, st) == [c EXCEPT !.dst = dz[1], !.size = dz[2], !.from = dz[3], !.start = st]
+TwinAxes == {<<d, 0, "top">> : d \in DstClasses} \cup {<<DefaultDst, z, "top">> : z \in MsgSizes} \cup
+            {<<DefaultDst, 0, f>> : f \in Sites}
+TwinPairs == TwinAxes \cup {<<q[4], q[5], q[6]>> : q \in Dims}
+SameMode(st) == {s \in Starts : GoTest(s) = GoTest(st)}
 DestinationsDoNotMatter ==
-    pc = "done" => \A dz \in (IF Terminating(cell.r) THEN TwinPairs ELSE TwinAxes) : MechFin(Twin(cell, dz)) = fin
+    pc = "done" => \A dz \in (IF Terminating(cell.r) THEN TwinPairs ELSE TwinAxes) :
+                      \A st \in SameMode(cell.start) : MechFin(Twin(cell, dz, st)) = fin
 \* ... and the statement's outcome is a function of Key (severity, level, flags, mode) over the table
-ASSUME Cardinality({<<Key(CellSeq[k]), ExpectedFin(CellSeq[k])>> : k \in CellIds}) = Cardinality({Key(CellSeq[k]) : k \in CellIds})
+\* (collected in two halves: TLC refuses to build a set from more than a million elements at once)
+KeyFins(ids) == {<<Key(CellSeq[k]), ExpectedFin(CellSeq[k])>> : k \in ids}
+AllKeyFins == KeyFins(1..(NCells \div 2)) \cup KeyFins(((NCells \div 2) + 1)..NCells)
+ASSUME Cardinality(AllKeyFins) = Cardinality({p[1] : p \in AllKeyFins})
 
 \* the terminating step is not the writing step, and the record is already out when it happens
 TermOrder == [][fin'.out \in {"panic", "exit"} => (written' = written /\ written = 1)]_vars
@@ -356,6 +450,11 @@ Stats(ids) ==
      customAdmittedUnheld |-> Count(LAMBDA c : c.r \in DOMAIN Customs /\ Admitted(c) /\ ~c.ni /\ (~c.testing \/ c.ia)),
      terminatesUnobservable |-> Count(LAMBDA c : Terminates(c) /\ ~Recording(c)),
      terminatesOtherDestination |-> Count(LAMBDA c : Terminates(c) /\ Recording(c) /\ c.dst # DefaultDst),
+     nestedTerminates |-> Count(LAMBDA c : Terminates(c) /\ Nested(c)),
+     nestedHeld |-> Count(LAMBDA c : MustWrite(c) /\ ~Terminates(c) /\ Nested(c)),
+     nestedSitesWithExit |-> Cardinality({CellSeq[k].from : k \in {j \in ids : Outcome(CellSeq[j]) = "exit" /\ Nested(CellSeq[j])}}),
+     halfSignTerminates |-> Count(LAMBDA c : Terminates(c) /\ c.start \notin FullStarts),
+     halfSignNeedsBoth |-> Count(LAMBDA c : MustWrite(c) /\ ~c.ni /\ ~c.ia /\ c.start \notin FullStarts),
      panicLongMessage |-> Count(LAMBDA c : Outcome(c) = "panic" /\ c.size > 65536),
      exitLongMessage |-> Count(LAMBDA c : Outcome(c) = "exit" /\ c.size > 65536)]
 
